@@ -138,6 +138,11 @@ def _address_replay_plan(ob):
     return 'loaders', cases, lambda o: o.get('parsed_as_unknown') is True
 
 
+# scalars that are long and not ASCII: byte offsets 16 / 32 / 40 / 64 / 80 fall inside a character for one or the other
+_LONG = ['\u6f22' * 40, 'a' + '\u00e9' * 60, 'ab' + '\u00e9' * 60, '\U0001f600' * 30, 'abc' + '\u6f22' * 40]
+YAML_LONG = ['{name: x, type: "%s"}' % v for v in _LONG] + ['{name: "%s"}' % v for v in _LONG] + ['{name: "%s", type: direct}' % v for v in _LONG[:2]]
+
+
 YAML_BATTERY = {
     'connectors': ['name: 5', 'name: [a]', '{name: x, type: 5}', '{name: x, type: [1]}', '{name: x, type: {a: b}}', 'name: ~', '{name: direct, type: ~}', '5', '[]', '{}',
                    '{name: true}', '{name: x, type: true}', '{name: 1.5}', '{type: direct}'],
@@ -157,7 +162,7 @@ def replay_plan(ob):
         if t.startswith(key + '::'):
             fnname = t.split('::')[1]
             cases = []
-            for y in YAML_BATTERY[key]:
+            for y in YAML_BATTERY[key] + (YAML_LONG if key in ('connectors', 'listeners') else ['{target: "%s"}' % v for v in _LONG[:2]]):
                 doc = y if fnname == 'from_value' else '[%s]' % ('{' + y + '}' if not y.startswith(('{', '[', '5')) else y)
                 cases.append({'driver': 'load', 'args': {'which': key, 'fn': fnname, 'yaml': doc}})
             return 'loaders', cases, lambda o: bool(o.get('panicked'))
